@@ -293,6 +293,7 @@ pub fn run(ctx: &mut Ctx, replay: Option<&str>) {
     }
     if replay.is_none() {
         many_objects(ctx);
+        set_patience(0);
         near_digest_decoys(ctx);
     }
     if let Some(f) = flows.last() {
@@ -333,6 +334,7 @@ fn many_object_claims(n: usize) -> Value {
 /// disclosures): (a) decoys are inert for holder and verifier also when there are thousands of them; (b) an issuer instance
 /// that has already handed out several hundred thousand decoys still gives every object its decoys
 fn many_objects(ctx: &mut Ctx) {
+    set_patience(240);
     use crate::keys::KeyId;
     // (a)
     for (wi, n) in (if ctx.tier == Tier::Quick { vec![1500usize] } else { vec![400, 1100, 1500, 3000] }).into_iter().enumerate() {
